@@ -6,558 +6,5 @@
     function neither underflows an unsigned subtraction nor casts a negative value to usize
     ([ok = true]), and it computes exactly what the hand-written model function computes. *)
 
-From Coq Require Import Lia ZArith ZifyBool ZifyNat ZifyN.
-From Avt Require Import Oracles.Step Proofs.Inv Proofs.TermEasy Gen.TermFns.
-Ltac Zify.zify_post_hook ::= Z.div_mod_to_equations.
-Local Open Scope Z_scope.
-
-Definition zabs (t : term) : zt := {|
-  z_cols := Z.of_nat (cols t); z_rows := Z.of_nat (rows t);
-  z_col := Z.of_nat (cur_col t); z_row := Z.of_nat (cur_row t);
-  z_pend := pend t; z_top := Z.of_nat (top t); z_bot := Z.of_nat (bot t);
-  z_org := org t; z_nlm := nlm t; z_acs := Z.of_nat (acs t);
-  z_cs0 := cs0 t; z_cs1 := cs1 t; z_ins := ins t; z_awm := awm t; z_vis := cur_vis t; z_ckm := ckm t; z_ev := []
-|}.
-
-Local Arguments Z.add : simpl never.
-Local Arguments Z.sub : simpl never.
-Local Arguments Z.opp : simpl never.
-Local Arguments Z.mul : simpl never.
-Local Arguments Z.leb : simpl never.
-Local Arguments Z.ltb : simpl never.
-Local Arguments Z.eqb : simpl never.
-Local Arguments Z.min : simpl never.
-Local Arguments Z.max : simpl never.
-Local Arguments Z.of_nat : simpl never.
-Local Arguments Z.of_N : simpl never.
-Local Arguments Z.to_nat : simpl never.
-Local Arguments N.eqb : simpl never.
-Local Arguments N.to_nat : simpl never.
-Local Arguments Nat.sub : simpl never.
-Local Arguments Nat.add : simpl never.
-Local Arguments Nat.min : simpl never.
-Local Arguments Nat.max : simpl never.
-Local Arguments Nat.leb : simpl never.
-Local Arguments Nat.ltb : simpl never.
-Local Arguments Nat.eqb : simpl never.
-
-(** split on every [if], innermost conditions first *)
-Ltac brk :=
-  repeat match goal with
-         | |- context [if ?b then _ else _] =>
-           lazymatch b with
-           | context [if _ then _ else _] => fail
-           | _ => destruct b eqn:?
-           end
-         end.
-
-(** normalise everything except arithmetic (call-by-need: nested record updates stay cheap) *)
-Ltac nrm :=
-  lazy -[Z.add Z.sub Z.opp Z.mul Z.leb Z.ltb Z.eqb Z.min Z.max Z.of_nat Z.of_N Z.to_nat Z.le Z.lt
-         N.eqb N.to_nat Nat.sub Nat.add Nat.min Nat.max Nat.leb Nat.ltb Nat.eqb Nat.lt andb orb negb].
-
-(** close a goal [(z1, ok) = (z2, true)] between explicit records *)
-Ltac fin :=
-  first [ exfalso; lia
-        | apply pair_equal_spec; split; [ f_equal; try reflexivity; lia | try reflexivity; lia ] ].
-
-(** unfold both sides completely, split on every comparison, finish with [lia] *)
-Ltac tie t H :=
-  destruct t;
-  let a := fresh "Hcols" in let b := fresh "Hrows" in let c := fresh "Hrow" in
-  let d := fresh "Hcol" in let e := fresh "Hpend" in let f := fresh "Hmar" in
-  destruct H as [a b c d e f];
-  cbn [Types.cols Types.rows Types.cur_row Types.cur_col Types.pend Types.top Types.bot] in a, b, c, d, e, f;
-  nrm; repeat (progress brk; nrm); fin.
-
-Lemma tie_of_eq (p : zt * bool) (z' : zt) :
-  p = (z', true) -> let '(z, ok) := p in ok = true /\ z' = z.
-Proof. intros ->. split; reflexivity. Qed.
-
-(** * the equations: regenerated function on the abstraction = abstraction of the model function *)
-
-Lemma g_as_usize_eq n d : g_as_usize (Z.of_N n) (Z.of_nat d) = (Z.of_nat (as_usize n d), true).
-Proof.
-  unfold g_as_usize, as_usize, as_usize_gen. destruct (N.eqb_spec n 0), (Z.eqb_spec (Z.of_N n) 0); try lia; apply pair_equal_spec; split; try reflexivity; lia.
-Qed.
-
-Lemma g_do_move_cursor_to_col_eq t c :
-  g_do_move_cursor_to_col (zabs t) (Z.of_nat c) = (zabs (do_move_cursor_to_col t c), true).
-Proof. destruct t; reflexivity. Qed.
-
-Lemma g_move_cursor_to_col_eq t c : TScal t ->
-  g_move_cursor_to_col (zabs t) (Z.of_nat c) = (zabs (move_cursor_to_col t c), true).
-Proof. intros H. tie t H. Qed.
-
-Lemma g_do_move_cursor_to_row_eq t r : TScal t ->
-  g_do_move_cursor_to_row (zabs t) (Z.of_nat r) = (zabs (do_move_cursor_to_row t r), true).
-Proof. intros H. tie t H. Qed.
-
-Lemma g_actual_top_margin_eq t :
-  g_actual_top_margin (zabs t) = (Z.of_nat (actual_top_margin t), true).
-Proof. destruct t; nrm. destruct org; reflexivity. Qed.
-
-Lemma g_actual_bottom_margin_eq t : TScal t ->
-  g_actual_bottom_margin (zabs t) = (Z.of_nat (actual_bottom_margin t), true).
-Proof.
-  intros H. tie t H.
-Qed.
-
-Lemma g_move_cursor_to_row_eq t r : TScal t ->
-  g_move_cursor_to_row (zabs t) (Z.of_nat r) = (zabs (move_cursor_to_row t r), true).
-Proof. intros H. tie t H. Qed.
-
-Lemma g_move_cursor_to_rel_col_eq t r : TScal t ->
-  g_move_cursor_to_rel_col (zabs t) r = (zabs (move_cursor_to_rel_col t r), true).
-Proof. intros H. tie t H. Qed.
-
-Lemma g_move_cursor_home_eq t : TScal t ->
-  g_move_cursor_home (zabs t) = (zabs (move_cursor_home t), true).
-Proof. intros H. tie t H. Qed.
-
-Lemma g_cursor_down_eq t n : TScal t ->
-  g_cursor_down (zabs t) (Z.of_nat n) = (zabs (cursor_down t n), true).
-Proof. intros H. tie t H. Qed.
-
-Lemma g_cursor_up_eq t n : TScal t ->
-  g_cursor_up (zabs t) (Z.of_nat n) = (zabs (cursor_up t n), true).
-Proof. intros H. tie t H. Qed.
-
-Lemma g_bs_eq t : TScal t -> g_bs (zabs t) = (zabs (bs t), true).
-Proof. intros H. tie t H. Qed.
-
-Lemma g_cr_eq t : g_cr (zabs t) = (zabs (do_move_cursor_to_col t 0%nat), true).
-Proof. destruct t; reflexivity. Qed.
-
-Lemma g_so_eq t : g_so (zabs t) = (zabs (t <| acs := 1%nat |>), true).
-Proof. destruct t; reflexivity. Qed.
-
-Lemma g_si_eq t : g_si (zabs t) = (zabs (t <| acs := 0%nat |>), true).
-Proof. destruct t; reflexivity. Qed.
-
-Lemma g_gzd4_eq t c : g_gzd4 (zabs t) c = (zabs (t <| cs0 := c |>), true).
-Proof. destruct t; reflexivity. Qed.
-
-Lemma g_g1d4_eq t c : g_g1d4 (zabs t) c = (zabs (t <| cs1 := c |>), true).
-Proof. destruct t; reflexivity. Qed.
-
-Lemma g_cuu_eq t n : TScal t -> g_cuu (zabs t) (Z.of_N n) = (zabs (cursor_up t (as_usize n 1%nat)), true).
-Proof. intros H. tie t H. Qed.
-
-Lemma g_cud_eq t n : TScal t -> g_cud (zabs t) (Z.of_N n) = (zabs (cursor_down t (as_usize n 1%nat)), true).
-Proof. intros H. tie t H. Qed.
-
-Lemma g_vpr_eq t n : TScal t -> g_vpr (zabs t) (Z.of_N n) = (zabs (cursor_down t (as_usize n 1%nat)), true).
-Proof. intros H. tie t H. Qed.
-
-Lemma g_cuf_eq t n : TScal t ->
-  g_cuf (zabs t) (Z.of_N n) = (zabs (move_cursor_to_rel_col t (Z.of_nat (as_usize n 1%nat))), true).
-Proof. intros H. tie t H. Qed.
-
-Lemma g_cub_eq t n : TScal t -> g_cub (zabs t) (Z.of_N n) = (zabs (cub t n), true).
-Proof. intros H. tie t H. Qed.
-
-Lemma g_cnl_eq t n : TScal t ->
-  g_cnl (zabs t) (Z.of_N n) = (zabs (do_move_cursor_to_col (cursor_down t (as_usize n 1%nat)) 0%nat), true).
-Proof. intros H. tie t H. Qed.
-
-Lemma g_cpl_eq t n : TScal t ->
-  g_cpl (zabs t) (Z.of_N n) = (zabs (do_move_cursor_to_col (cursor_up t (as_usize n 1%nat)) 0%nat), true).
-Proof. intros H. tie t H. Qed.
-
-Lemma g_cha_eq t n : TScal t ->
-  g_cha (zabs t) (Z.of_N n) = (zabs (move_cursor_to_col t ((as_usize n 1 - 1)%nat)), true).
-Proof. intros H. tie t H. Qed.
-
-Lemma g_vpa_eq t n : TScal t ->
-  g_vpa (zabs t) (Z.of_N n) = (zabs (move_cursor_to_row t ((as_usize n 1 - 1)%nat)), true).
-Proof. intros H. tie t H. Qed.
-
-Lemma g_cup_eq t r c : TScal t -> g_cup (zabs t) (Z.of_N r) (Z.of_N c) = (zabs (cup t r c), true).
-Proof. intros H. tie t H. Qed.
-
-Lemma g_decstbm_eq t a b : TScal t -> g_decstbm (zabs t) (Z.of_N a) (Z.of_N b) = (zabs (decstbm t a b), true).
-Proof. intros H. tie t H. Qed.
-
-(** * the tie theorems, one per Rust function *)
-
-Theorem tie_as_usize : forall n d,
-  let '(v, ok) := g_as_usize (Z.of_N n) (Z.of_nat d) in ok = true /\ Z.of_nat (as_usize n d) = v.
-Proof. intros n d. rewrite g_as_usize_eq. split; reflexivity. Qed.
-Print Assumptions tie_as_usize.
-
-Theorem tie_actual_top_margin : forall t,
-  let '(v, ok) := g_actual_top_margin (zabs t) in ok = true /\ Z.of_nat (actual_top_margin t) = v.
-Proof. intros t. rewrite g_actual_top_margin_eq. split; reflexivity. Qed.
-Print Assumptions tie_actual_top_margin.
-
-Theorem tie_actual_bottom_margin : forall t, TScal t ->
-  let '(v, ok) := g_actual_bottom_margin (zabs t) in ok = true /\ Z.of_nat (actual_bottom_margin t) = v.
-Proof. intros t H. rewrite g_actual_bottom_margin_eq by exact H. split; reflexivity. Qed.
-Print Assumptions tie_actual_bottom_margin.
-
-Theorem tie_do_move_cursor_to_col : forall t c,
-  let '(z, ok) := g_do_move_cursor_to_col (zabs t) (Z.of_nat c) in
-  ok = true /\ zabs (do_move_cursor_to_col t c) = z.
-Proof. intros t c. exact (tie_of_eq _ _ (g_do_move_cursor_to_col_eq t c)). Qed.
-Print Assumptions tie_do_move_cursor_to_col.
-
-Theorem tie_move_cursor_to_col : forall t c, TScal t ->
-  let '(z, ok) := g_move_cursor_to_col (zabs t) (Z.of_nat c) in
-  ok = true /\ zabs (move_cursor_to_col t c) = z.
-Proof. intros t c H. exact (tie_of_eq _ _ (g_move_cursor_to_col_eq t c H)). Qed.
-Print Assumptions tie_move_cursor_to_col.
-
-Theorem tie_do_move_cursor_to_row : forall t r, TScal t ->
-  let '(z, ok) := g_do_move_cursor_to_row (zabs t) (Z.of_nat r) in
-  ok = true /\ zabs (do_move_cursor_to_row t r) = z.
-Proof. intros t r H. exact (tie_of_eq _ _ (g_do_move_cursor_to_row_eq t r H)). Qed.
-Print Assumptions tie_do_move_cursor_to_row.
-
-Theorem tie_move_cursor_to_row : forall t r, TScal t ->
-  let '(z, ok) := g_move_cursor_to_row (zabs t) (Z.of_nat r) in
-  ok = true /\ zabs (move_cursor_to_row t r) = z.
-Proof. intros t r H. exact (tie_of_eq _ _ (g_move_cursor_to_row_eq t r H)). Qed.
-Print Assumptions tie_move_cursor_to_row.
-
-Theorem tie_move_cursor_to_rel_col : forall t (r : Z), TScal t ->
-  let '(z, ok) := g_move_cursor_to_rel_col (zabs t) r in
-  ok = true /\ zabs (move_cursor_to_rel_col t r) = z.
-Proof. intros t r H. exact (tie_of_eq _ _ (g_move_cursor_to_rel_col_eq t r H)). Qed.
-Print Assumptions tie_move_cursor_to_rel_col.
-
-Theorem tie_move_cursor_home : forall t, TScal t ->
-  let '(z, ok) := g_move_cursor_home (zabs t) in ok = true /\ zabs (move_cursor_home t) = z.
-Proof. intros t H. exact (tie_of_eq _ _ (g_move_cursor_home_eq t H)). Qed.
-Print Assumptions tie_move_cursor_home.
-
-Theorem tie_cursor_down : forall t n, TScal t ->
-  let '(z, ok) := g_cursor_down (zabs t) (Z.of_nat n) in ok = true /\ zabs (cursor_down t n) = z.
-Proof. intros t n H. exact (tie_of_eq _ _ (g_cursor_down_eq t n H)). Qed.
-Print Assumptions tie_cursor_down.
-
-Theorem tie_cursor_up : forall t n, TScal t ->
-  let '(z, ok) := g_cursor_up (zabs t) (Z.of_nat n) in ok = true /\ zabs (cursor_up t n) = z.
-Proof. intros t n H. exact (tie_of_eq _ _ (g_cursor_up_eq t n H)). Qed.
-Print Assumptions tie_cursor_up.
-
-Theorem tie_bs : forall t, TScal t ->
-  let '(z, ok) := g_bs (zabs t) in ok = true /\ zabs (bs t) = z.
-Proof. intros t H. exact (tie_of_eq _ _ (g_bs_eq t H)). Qed.
-Print Assumptions tie_bs.
-
-Theorem tie_cr : forall t,
-  let '(z, ok) := g_cr (zabs t) in ok = true /\ zabs (do_move_cursor_to_col t 0%nat) = z.
-Proof. intros t. exact (tie_of_eq _ _ (g_cr_eq t)). Qed.
-Print Assumptions tie_cr.
-
-Theorem tie_so : forall t,
-  let '(z, ok) := g_so (zabs t) in ok = true /\ zabs (t <| acs := 1%nat |>) = z.
-Proof. intros t. exact (tie_of_eq _ _ (g_so_eq t)). Qed.
-Print Assumptions tie_so.
-
-Theorem tie_si : forall t,
-  let '(z, ok) := g_si (zabs t) in ok = true /\ zabs (t <| acs := 0%nat |>) = z.
-Proof. intros t. exact (tie_of_eq _ _ (g_si_eq t)). Qed.
-Print Assumptions tie_si.
-
-Theorem tie_gzd4 : forall t c,
-  let '(z, ok) := g_gzd4 (zabs t) c in ok = true /\ zabs (t <| cs0 := c |>) = z.
-Proof. intros t c. exact (tie_of_eq _ _ (g_gzd4_eq t c)). Qed.
-Print Assumptions tie_gzd4.
-
-Theorem tie_g1d4 : forall t c,
-  let '(z, ok) := g_g1d4 (zabs t) c in ok = true /\ zabs (t <| cs1 := c |>) = z.
-Proof. intros t c. exact (tie_of_eq _ _ (g_g1d4_eq t c)). Qed.
-Print Assumptions tie_g1d4.
-
-(** the functions taking the raw u16 parameter *)
-Theorem tie_cuu : forall t (n : N), TScal t ->
-  let '(z, ok) := g_cuu (zabs t) (Z.of_N n) in ok = true /\ zabs (cursor_up t (as_usize n 1%nat)) = z.
-Proof. intros t n H. exact (tie_of_eq _ _ (g_cuu_eq t n H)). Qed.
-Print Assumptions tie_cuu.
-
-Theorem tie_cud : forall t (n : N), TScal t ->
-  let '(z, ok) := g_cud (zabs t) (Z.of_N n) in ok = true /\ zabs (cursor_down t (as_usize n 1%nat)) = z.
-Proof. intros t n H. exact (tie_of_eq _ _ (g_cud_eq t n H)). Qed.
-Print Assumptions tie_cud.
-
-Theorem tie_vpr : forall t (n : N), TScal t ->
-  let '(z, ok) := g_vpr (zabs t) (Z.of_N n) in ok = true /\ zabs (cursor_down t (as_usize n 1%nat)) = z.
-Proof. intros t n H. exact (tie_of_eq _ _ (g_vpr_eq t n H)). Qed.
-Print Assumptions tie_vpr.
-
-Theorem tie_cuf : forall t (n : N), TScal t ->
-  let '(z, ok) := g_cuf (zabs t) (Z.of_N n) in
-  ok = true /\ zabs (move_cursor_to_rel_col t (Z.of_nat (as_usize n 1%nat))) = z.
-Proof. intros t n H. exact (tie_of_eq _ _ (g_cuf_eq t n H)). Qed.
-Print Assumptions tie_cuf.
-
-Theorem tie_cub : forall t (n : N), TScal t ->
-  let '(z, ok) := g_cub (zabs t) (Z.of_N n) in ok = true /\ zabs (cub t n) = z.
-Proof. intros t n H. exact (tie_of_eq _ _ (g_cub_eq t n H)). Qed.
-Print Assumptions tie_cub.
-
-Theorem tie_cnl : forall t (n : N), TScal t ->
-  let '(z, ok) := g_cnl (zabs t) (Z.of_N n) in
-  ok = true /\ zabs (do_move_cursor_to_col (cursor_down t (as_usize n 1%nat)) 0%nat) = z.
-Proof. intros t n H. exact (tie_of_eq _ _ (g_cnl_eq t n H)). Qed.
-Print Assumptions tie_cnl.
-
-Theorem tie_cpl : forall t (n : N), TScal t ->
-  let '(z, ok) := g_cpl (zabs t) (Z.of_N n) in
-  ok = true /\ zabs (do_move_cursor_to_col (cursor_up t (as_usize n 1%nat)) 0%nat) = z.
-Proof. intros t n H. exact (tie_of_eq _ _ (g_cpl_eq t n H)). Qed.
-Print Assumptions tie_cpl.
-
-Theorem tie_cha : forall t (n : N), TScal t ->
-  let '(z, ok) := g_cha (zabs t) (Z.of_N n) in
-  ok = true /\ zabs (move_cursor_to_col t (as_usize n 1 - 1)%nat) = z.
-Proof. intros t n H. exact (tie_of_eq _ _ (g_cha_eq t n H)). Qed.
-Print Assumptions tie_cha.
-
-Theorem tie_vpa : forall t (n : N), TScal t ->
-  let '(z, ok) := g_vpa (zabs t) (Z.of_N n) in
-  ok = true /\ zabs (move_cursor_to_row t (as_usize n 1 - 1)%nat) = z.
-Proof. intros t n H. exact (tie_of_eq _ _ (g_vpa_eq t n H)). Qed.
-Print Assumptions tie_vpa.
-
-Theorem tie_cup : forall t (r c : N), TScal t ->
-  let '(z, ok) := g_cup (zabs t) (Z.of_N r) (Z.of_N c) in ok = true /\ zabs (cup t r c) = z.
-Proof. intros t r c H. exact (tie_of_eq _ _ (g_cup_eq t r c H)). Qed.
-Print Assumptions tie_cup.
-
-Theorem tie_decstbm : forall t (a b : N), TScal t ->
-  let '(z, ok) := g_decstbm (zabs t) (Z.of_N a) (Z.of_N b) in ok = true /\ zabs (decstbm t a b) = z.
-Proof. intros t a b H. exact (tie_of_eq _ _ (g_decstbm_eq t a b H)). Qed.
-Print Assumptions tie_decstbm.
-
-(** * [Terminal::execute]: the arms of the scalar functions forward as the model's [execute] does *)
-Definition scalar_fn (f : func) : bool :=
-  match f with
-  | Bs | Cha _ | Cnl _ | Cpl _ | Cr | Cub _ | Cud _ | Cuf _ | Cup _ _ | Cuu _ | Decstbm _ _
-  | G1d4 _ | Gzd4 _ | Si | So | Vpa _ | Vpr _ => true
-  | _ => false
-  end.
-
-Theorem tie_execute : forall t f, TScal t -> scalar_fn f = true ->
-  exists t', execute t f = Ok t' /\ g_execute (zabs t) f = Some (zabs t', true).
-Proof.
-  intros t f H Hf.
-  destruct f; try discriminate Hf; cbn [execute g_execute]; eexists; (split; [reflexivity|]); f_equal;
-    first [ apply g_bs_eq, H | apply g_cha_eq, H | apply g_cnl_eq, H | apply g_cpl_eq, H | apply g_cr_eq
-          | apply g_cub_eq, H | apply g_cud_eq, H | apply g_cuf_eq, H | apply g_cup_eq, H | apply g_cuu_eq, H
-          | apply g_decstbm_eq, H | apply g_g1d4_eq | apply g_gzd4_eq | apply g_si_eq | apply g_so_eq
-          | apply g_vpa_eq, H | apply g_vpr_eq, H ].
-Qed.
-Print Assumptions tie_execute.
-
-(** * functions that also call into buffer / tabs / dirty lines
-
-    The regenerated code records those calls, with their evaluated arguments, in [z_ev].  [zrun z t]
-    replays the recorded calls on the model terminal with the model's own primitives and then writes the
-    scalar fields back; the tie says that this is exactly what the hand-written model function does. *)
-
-Definition cell_of (t : term) (x : zcell) : cell :=
-  match x with
-  | ZCellNew c => mkCell (Z.to_N c) (tpen t)
-  | ZCellBlank => blank_cell (tpen t)
-  | ZCellChar c => mkCell (Z.to_N c) default_pen
-  end.
-
-Definition erase_of (m : zerase) : erase_mode :=
-  match m with
-  | ZNextChars n => NextChars (Z.to_nat n)
-  | ZFromCursorToEndOfView => FromCursorToEndOfView
-  | ZFromStartOfViewToCursor => FromStartOfViewToCursor
-  | ZWholeView => WholeView
-  | ZFromCursorToEndOfLine => FromCursorToEndOfLine
-  | ZFromStartOfLineToCursor => FromStartOfLineToCursor
-  | ZWholeLine => WholeLine
-  end.
-
-Definition run_ev (t : term) (e : zev) : res term :=
-  match e with
-  | EvTabSet c => Ok (t <| tabs := tabs_set (Z.to_nat c) (tabs t) |>)
-  | EvTabUnset c => Ok (t <| tabs := tabs_unset (Z.to_nat c) (tabs t) |>)
-  | EvTabsClear => Ok (t <| tabs := [] |>)
-  | EvBufScrollUp a b n =>
-    on_buf t (fun bf => buf_scroll_up bf (Z.to_nat a) (Z.to_nat b) (Z.to_nat n) (tpen t))
-  | EvBufScrollDown a b n =>
-    on_buf t (fun bf => buf_scroll_down bf (Z.to_nat a) (Z.to_nat b) (Z.to_nat n) (tpen t))
-  | EvDirtyExtend a b => mark_range t (Z.to_nat a) (Z.to_nat b)
-  | EvBufPrint c r x => on_buf t (fun bf => buf_print bf (Z.to_nat c) (Z.to_nat r) (cell_of t x))
-  | EvBufInsert c r n x =>
-    on_buf t (fun bf => buf_insert bf (Z.to_nat c) (Z.to_nat r) (Z.to_nat n) (cell_of t x))
-  | EvBufDelete c r n => on_buf t (fun bf => buf_delete bf (Z.to_nat c) (Z.to_nat r) (Z.to_nat n) (tpen t))
-  | EvBufErase c r m => on_buf t (fun bf => buf_erase bf (Z.to_nat c) (Z.to_nat r) (erase_of m) (tpen t))
-  | EvBufWrap r => on_buf t (fun bf => buf_wrap bf (Z.to_nat r))
-  | EvDirtyAdd r => mark t (Z.to_nat r)
-  | EvDirtyResize n => Ok (t <| dirty := dirty_resize (dirty t) (Z.to_nat n) |>)
-  | EvTabsContract c => Ok (t <| tabs := tabs_contract (Z.to_nat c) (tabs t) |>)
-  | EvTabsExpand a b => Ok (t <| tabs := tabs_expand (Z.to_nat a) (Z.to_nat b) (tabs t) |>)
-  | EvSctxCol v => Ok (t <| sctx := (sctx t) <| sc_col := Z.to_nat v |> |>)
-  | EvSctxRow v => Ok (t <| sctx := (sctx t) <| sc_row := Z.to_nat v |> |>)
-  | EvSctxOrg v => Ok (t <| sctx := (sctx t) <| sc_origin := v |> |>)
-  | EvSctxAwm v => Ok (t <| sctx := (sctx t) <| sc_awm := v |> |>)
-  | EvSctxPenSave => Ok (t <| sctx := (sctx t) <| sc_pen := tpen t |> |>)
-  | EvPenRestore => Ok (t <| tpen := sc_pen (sctx t) |>)
-  | EvActive b => Ok (t <| active := b |>)
-  | EvSwapCtx => Ok (t <| sctx := asctx t |> <| asctx := sctx t |>)
-  | EvSwapBuf => Ok (t <| buf := other t |> <| other := buf t |>)
-  | EvBufNewAlt c r => Ok (t <| buf := buffer_new (Z.to_nat c) (Z.to_nat r) (Some 0%N) (Some (tpen t)) |>)
-  end.
-
-Definition zput (z : zt) (t : term) : term :=
-  t <| cols := Z.to_nat (z_cols z) |> <| rows := Z.to_nat (z_rows z) |>
-    <| cur_col := Z.to_nat (z_col z) |> <| cur_row := Z.to_nat (z_row z) |> <| pend := z_pend z |>
-    <| top := Z.to_nat (z_top z) |> <| bot := Z.to_nat (z_bot z) |> <| org := z_org z |>
-    <| nlm := z_nlm z |> <| acs := Z.to_nat (z_acs z) |> <| cs0 := z_cs0 z |> <| cs1 := z_cs1 z |>
-    <| ins := z_ins z |> <| awm := z_awm z |> <| cur_vis := z_vis z |> <| ckm := z_ckm z |>.
-
-Definition zrun (z : zt) (t : term) : res term :=
-  t' <- foldM run_ev (rev (z_ev z)) t ;; Ok (zput z t').
-
-Lemma z2n_succ a : Z.to_nat (Z.of_nat a + 1) = (a + 1)%nat.
-Proof. lia. Qed.
-Lemma z2n_ofN n : Z.to_nat (Z.of_N n) = N.to_nat n.
-Proof. lia. Qed.
-Lemma z2n_pred a : (1 <= a)%nat -> Z.to_nat (Z.of_nat a - 1) = (a - 1)%nat.
-Proof. lia. Qed.
-
-Ltac nrm_ev :=
-  lazy -[Z.add Z.sub Z.opp Z.mul Z.leb Z.ltb Z.eqb Z.min Z.max Z.of_nat Z.of_N Z.to_nat Z.le Z.lt
-         N.eqb N.to_nat Nat.sub Nat.add Nat.min Nat.max Nat.leb Nat.ltb Nat.eqb Nat.lt andb orb negb
-         buf_scroll_up buf_scroll_down dirty_extend tabs_set tabs_unset].
-
-Ltac z2n :=
-  repeat first [ rewrite Nat2Z.id | rewrite z2n_ofN | rewrite z2n_succ | rewrite z2n_pred by lia
-               | progress change (Z.to_nat 1) with 1%nat | progress change (Z.to_nat 0) with 0%nat ].
-
-(** split on the results of the recorded calls, innermost first *)
-Ltac brk_res :=
-  match goal with
-  | |- context [match ?m with Ok _ => _ | Panic _ => _ end] =>
-    lazymatch m with
-    | Ok _ => fail
-    | Panic _ => fail
-    | context [match _ with Ok _ => _ | Panic _ => _ end] => fail
-    | _ => destruct m
-    end
-  end.
-
-Ltac ev_fin :=
-  first [ exfalso; lia
-        | split;
-          [ try reflexivity; lia
-          | z2n; repeat (brk_res; nrm_ev; z2n); first [ reflexivity | f_equal; f_equal; lia ] ] ].
-
-Ltac ev_tie t H :=
-  destruct t;
-  let a := fresh "Hcols" in let b := fresh "Hrows" in let c := fresh "Hrow" in
-  let d := fresh "Hcol" in let e := fresh "Hpend" in let f := fresh "Hmar" in
-  destruct H as [a b c d e f];
-  cbn [Types.cols Types.rows Types.cur_row Types.cur_col Types.pend Types.top Types.bot] in a, b, c, d, e, f;
-  nrm_ev; repeat (progress brk; nrm_ev); ev_fin.
-
-Theorem tie_set_tab : forall t, TScal t ->
-  let '(z, ok) := g_set_tab (zabs t) in ok = true /\ Ok (set_tab t) = zrun z t.
-Proof. intros t H. ev_tie t H. Qed.
-Print Assumptions tie_set_tab.
-
-Theorem tie_hts : forall t, TScal t ->
-  let '(z, ok) := g_hts (zabs t) in ok = true /\ Ok (set_tab t) = zrun z t.
-Proof. intros t H. ev_tie t H. Qed.
-Print Assumptions tie_hts.
-
-Theorem tie_clear_tab : forall t, TScal t ->
-  let '(z, ok) := g_clear_tab (zabs t) in ok = true /\ Ok (clear_tab t) = zrun z t.
-Proof. intros t H. ev_tie t H. Qed.
-Print Assumptions tie_clear_tab.
-
-Theorem tie_clear_all_tabs : forall t, TScal t ->
-  let '(z, ok) := g_clear_all_tabs (zabs t) in ok = true /\ Ok (clear_all_tabs t) = zrun z t.
-Proof. intros t H. ev_tie t H. Qed.
-Print Assumptions tie_clear_all_tabs.
-
-Theorem tie_scroll_up_in_region : forall t n, TScal t ->
-  let '(z, ok) := g_scroll_up_in_region (zabs t) (Z.of_nat n) in
-  ok = true /\ scroll_up_in_region t n = zrun z t.
-Proof. intros t n H. ev_tie t H. Qed.
-Print Assumptions tie_scroll_up_in_region.
-
-Theorem tie_scroll_down_in_region : forall t n, TScal t ->
-  let '(z, ok) := g_scroll_down_in_region (zabs t) (Z.of_nat n) in
-  ok = true /\ scroll_down_in_region t n = zrun z t.
-Proof. intros t n H. ev_tie t H. Qed.
-Print Assumptions tie_scroll_down_in_region.
-
-Theorem tie_move_cursor_down_with_scroll : forall t, TScal t ->
-  let '(z, ok) := g_move_cursor_down_with_scroll (zabs t) in
-  ok = true /\ move_cursor_down_with_scroll t = zrun z t.
-Proof. intros t H. ev_tie t H. Qed.
-Print Assumptions tie_move_cursor_down_with_scroll.
-
-Theorem tie_lf : forall t, TScal t ->
-  let '(z, ok) := g_lf (zabs t) in ok = true /\ lf t = zrun z t.
-Proof. intros t H. ev_tie t H. Qed.
-Print Assumptions tie_lf.
-
-Theorem tie_nel : forall t, TScal t ->
-  let '(z, ok) := g_nel (zabs t) in ok = true /\ nel t = zrun z t.
-Proof. intros t H. ev_tie t H. Qed.
-Print Assumptions tie_nel.
-
-Theorem tie_ri : forall t, TScal t ->
-  let '(z, ok) := g_ri (zabs t) in ok = true /\ ri t = zrun z t.
-Proof. intros t H. ev_tie t H. Qed.
-Print Assumptions tie_ri.
-
-Theorem tie_il : forall t (n : N), TScal t ->
-  let '(z, ok) := g_il (zabs t) (Z.of_N n) in ok = true /\ il t n = zrun z t.
-Proof. intros t n H. ev_tie t H. Qed.
-Print Assumptions tie_il.
-
-Theorem tie_dl : forall t (n : N), TScal t ->
-  let '(z, ok) := g_dl (zabs t) (Z.of_N n) in ok = true /\ dl t n = zrun z t.
-Proof. intros t n H. ev_tie t H. Qed.
-Print Assumptions tie_dl.
-
-Theorem tie_su : forall t (n : N), TScal t ->
-  let '(z, ok) := g_su (zabs t) (Z.of_N n) in
-  ok = true /\ scroll_up_in_region t (as_usize n 1%nat) = zrun z t.
-Proof. intros t n H. ev_tie t H. Qed.
-Print Assumptions tie_su.
-
-Theorem tie_sd : forall t (n : N), TScal t ->
-  let '(z, ok) := g_sd (zabs t) (Z.of_N n) in
-  ok = true /\ scroll_down_in_region t (as_usize n 1%nat) = zrun z t.
-Proof. intros t n H. ev_tie t H. Qed.
-Print Assumptions tie_sd.
-
-(** [Terminal::execute]: the arms forwarding to the functions with recorded calls *)
-Definition ev_fn (f : func) : bool :=
-  match f with
-  | Dl _ | Il _ | Lf | Nel | Ri | Sd _ | Su _ | Hts => true
-  | _ => false
-  end.
-
-Theorem tie_execute_ev : forall t f, TScal t -> ev_fn f = true ->
-  exists z, g_execute (zabs t) f = Some (z, true) /\ execute t f = zrun z t.
-Proof.
-  intros t f H Hf.
-  assert (K : forall (p : zt * bool) (m : res term),
-             (let '(z, ok) := p in ok = true /\ m = zrun z t) ->
-             exists z, Some p = Some (z, true) /\ m = zrun z t).
-  { intros [z ok] m [-> E]. exists z. split; [reflexivity | exact E]. }
-  destruct f; try discriminate Hf; cbn [execute g_execute]; apply K.
-  - apply tie_dl, H.
-  - apply tie_hts, H.
-  - apply tie_il, H.
-  - apply tie_lf, H.
-  - apply tie_nel, H.
-  - apply tie_ri, H.
-  - apply tie_sd, H.
-  - apply tie_su, H.
-Qed.
-Print Assumptions tie_execute_ev.
+(* The proofs live in Proofs/TermTie_Core.v (definitions, tactics) and two leaf files compiled in parallel. *)
+From Avt Require Export Proofs.TermTie_Core Proofs.TermTie_Scalar Proofs.TermTie_Events.
